@@ -1,7 +1,9 @@
 (** C17 — GraphInfo mirrors the built graph and survives serialisation.
-    Partial: the YAML text layer (serde + serde_yaml_ng) is not modelled; the round trip is proved
-    for petgraph's serialisation structure (node list + edge triples in index order). *)
-From FG Require Import Dag Builder DagFacts EdgeFacts RankFacts BuilderFacts TopoFacts AugFacts BuildFacts.
+    The round trip is proved twice: for petgraph's serialisation structure (node list + edge triples in index
+    order, [C17_roundtrip_partial]) and for the YAML text line by line ([Yaml.v]: the writer's lines are compared
+    byte for byte with serde_yaml_ng's output on every case; `C17_yaml_*` below).  Still partial: the reader of the
+    implementation (serde_yaml_ng's scanner) is tied to [gi_parse] only through the round trips the harness runs. *)
+From FG Require Import Dag Builder DagFacts EdgeFacts RankFacts BuilderFacts TopoFacts AugFacts BuildFacts Yaml YamlFacts.
 From Coq Require Import Permutation.
 
 Theorem C17_from_graph : forall ops G pops queries f,
@@ -49,3 +51,42 @@ Example C17_example :
   | _ => False
   end.
 Proof. vm_compute. reflexivity. Qed.
+
+(** The YAML text layer. *)
+Theorem C17_yaml_roundtrip : forall ops G pops queries f i,
+  build (builder_run ops) = BOk G pops queries -> gi_from_graph G f = Some i ->
+  gi_parse (gi_yaml i) = Some i /\ gi_eqb i i = true.
+Proof.
+  intros ops G pops queries f i Hb Hgi.
+  rewrite (C17_from_graph ops G pops queries f Hb) in Hgi. inversion Hgi; subst i.
+  destruct (build_total_spec _ (builder_wf ops)) as [G' [p' [q' [Hb' Hok]]]].
+  rewrite Hb in Hb'. inversion Hb'; subst G' p' q'.
+  split; [|apply gi_eqb_iff; reflexivity].
+  apply yaml_roundtrip, wf_in_range. rewrite map_length.
+  pose proof (bo_wf _ _ _ _ Hok) as [Hw _]. rewrite (bo_nodes _ _ _ _ Hok). exact Hw.
+Qed.
+Print Assumptions C17_yaml_roundtrip.
+
+(** Any GraphInfo value (`GraphInfo::new` included): read back iff its edges connect nodes. *)
+Theorem C17_yaml_roundtrip_any_value : forall i,
+  (gi_in_range i = true -> gi_parse (gi_yaml i) = Some i) /\
+  (gi_in_range i = false -> gi_parse (gi_yaml i) = None).
+Proof. intros i. split; [apply yaml_roundtrip | apply yaml_refuses_out_of_range]. Qed.
+Print Assumptions C17_yaml_roundtrip_any_value.
+
+Theorem C17_yaml_reader_accepts_only_written_text : forall l i,
+  gi_parse l = Some i -> l = gi_yaml i /\ gi_in_range i = true.
+Proof. exact yaml_parse_sound. Qed.
+Print Assumptions C17_yaml_reader_accepts_only_written_text.
+
+Theorem C17_yaml_text_determines_value : forall a b, gi_yaml a = gi_yaml b -> a = b.
+Proof. exact yaml_injective. Qed.
+Print Assumptions C17_yaml_text_determines_value.
+
+Example C17_yaml_example :
+  gi_yaml (mkGI [7; 8; 9] [(0, 2, Logic); (1, 2, Contains); (0, 1, Data)]) =
+  [YGraph; YNodes false; YNode 7; YNode 8; YNode 9; YHoles; YProp; YEdges false;
+   YSrc 0; YDst 2; YKind Logic; YSrc 1; YDst 2; YKind Contains; YSrc 0; YDst 1; YKind Data]
+  /\ gi_yaml (mkGI [] []) = [YGraph; YNodes true; YHoles; YProp; YEdges true]
+  /\ gi_parse (gi_yaml (mkGI [7] [(0, 1, Logic)])) = None.
+Proof. vm_compute. repeat split. Qed.
